@@ -2,6 +2,14 @@
 """Regenerates /verif/MANIFEST.json from the table below (run after adding a check)."""
 import json, subprocess
 CHECKS = {
+ "C06": dict(level="model_checking",
+   text="History exploration of the real broker with scripted clients: (a) every sequence of 2 (thorough 3) events over an 80-event alphabet on one subscriber's table (single- and multi-filter SUBSCRIBE with different QoS, UNSUBSCRIBE, unclean reconnect) with 12 probe publishes (4 topics x 3 QoS) after each event; (b) every sequence of 4 (thorough 5) subscribe/unsubscribe/publish/reconnect events by 2 (thorough 3) clients incl. self-delivery; (c) the same with one scheduling deviation inside each step. After every event every inbox is compared with a reference model (multiset, retain flag, QoS within the capped set, SUBACK codes).",
+   note="Trusted: rewriter + scheduler shims, codec pipe, scripted clients, ref.Matches, the 60-line subscription/retained model in mc/h/pubsub. Clients acknowledge at once (no back-pressure); order within an inbox is not compared.",
+   technique="bounded-exhaustive environment-history exploration of the implementation under a controlled scheduler, reference-model oracle", design="5 (C06)"),
+ "C11": dict(level="model_checking",
+   text="History exploration of the real broker: every sequence of 3 (thorough 4) events over retained / non-retained / empty publishes on 3 topics at all QoS, dying clients with retained and non-retained wills, subscriptions by an online subscriber and an unclean reconnect of a persistent one; after EVERY event a probe client subscribes in turn to each of 25 filters (levels {a,b,+} to depth 2, with/without '#') and the retained replay (topics, payloads, retain flag set, capped QoS) is compared with a reference retained map, as are all live deliveries (retain flag clear).",
+   note="Trusted: as C06. Offline persistent subscribers are exercised by the reconnect event only; queueing while offline is C08's subject.",
+   technique="bounded-exhaustive environment-history exploration of the implementation under a controlled scheduler, reference-model oracle", design="5 (C11)"),
  "C20": dict(level="model_checking",
    text="History exploration of the real broker: every sequence of 2-3 (thorough 4) packets over 23 packet instances covering all 14 types, ids 1/7/65535, 1-4 (thorough 8) filters, good and bad credentials, sent cold or after a valid CONNECT, step-by-step or pipelined, plus one or two scheduling deviations inside the pipelined sequences; replies are compared with a reference transducer per request, backend hooks and a '#' witness show what was acted upon.",
    note="Trusted: rewriter + scheduler shims, codec pipe, recording backend, the 40-line reference transducer in mc/h/c20. Filters of the connection under test are disjoint from its publish topics.",
